@@ -1073,6 +1073,10 @@ class Walker:
             if name == 'take':
                 self.emit('call', n, pc, **data)
                 return recv
+            if name in ('get_or_insert_with', 'get_or_insert', 'get_or_insert_default') and _is_opt(recv_ty):
+                # `place.get_or_insert_with(f)`: the place is made Some (an effect on it) and its payload is handed out
+                self.emit('call', n, pc, **data)
+                return payload(recv, okv)
             if name in ('unwrap_or', 'unwrap_or_default', 'unwrap_or_else'):
                 dflt = args[1] if len(args) > 1 else ('default',)
                 if name == 'unwrap_or_else' and cl[1:] and cl[1]:
